@@ -1,0 +1,24 @@
+//go:build verif
+
+package litefs
+
+import (
+	"io"
+
+	"github.com/superfly/litefs/internal"
+	"github.com/superfly/litefs/internal/chunk"
+)
+
+// The functions below re-export internal codecs so that an external
+// verification harness can exercise them. Only compiled with the "verif" tag.
+
+// VerifNewChunkReader wraps internal/chunk.NewReader.
+func VerifNewChunkReader(r io.Reader) io.Reader { return chunk.NewReader(r) }
+
+// VerifNewChunkWriter wraps internal/chunk.NewWriter.
+func VerifNewChunkWriter(w io.Writer) io.WriteCloser { return chunk.NewWriter(w) }
+
+// VerifReadFullAt wraps internal.ReadFullAt.
+func VerifReadFullAt(r io.ReaderAt, buf []byte, off int64) (int, error) {
+	return internal.ReadFullAt(r, buf, off)
+}
